@@ -100,6 +100,7 @@ class Interp:
         self.nqueries = 0
         self.unknown_feasibility = 0
         self.digit_defs = set()
+        self.hash_ordered = []      # sizes of str sets whose (hash-seed dependent) order was observed
         self.external_calls = set()  # names of non-repo callables executed natively (C13: sources of nondeterminism)
         self.random_model = None
         self.loop_generic = set()    # qualnames whose `for _ in range(N)` retry loop is verified as ONE generic iteration
@@ -475,7 +476,8 @@ class Interp:
             if id(obj) not in self.local_ids:
                 self.writes.append(dict(kind="item", target=type(obj).__name__, shared=True, where=f.qual,
                                         line=t.lineno, key=repr(key)[:40]))
-                raise Unsupported(f"write into a shared container at {f.qual}:{t.lineno}")
+                from .values import FrameViolation
+                raise FrameViolation(f"write into a shared {type(obj).__name__} at {f.qual}:{t.lineno}")
             obj[key] = v
         else:
             raise Unsupported(f"assign target {type(t).__name__}")
@@ -1513,7 +1515,11 @@ class Interp:
             # position is unknown to the verifier
             self.writes.append(dict(kind="iterator", target=type(v).__name__, attr="<position>", shared=True,
                                     where="<iteration>", line=0))
-            raise Unsupported(f"consuming a shared {type(v).__name__} iterator that outlives the call")
+            from .values import FrameViolation
+            raise FrameViolation(f"consuming a shared {type(v).__name__} iterator that outlives the call")
+        if isinstance(v, (set, frozenset)) and len(v) > 1 and any(isinstance(x, (str, bytes)) for x in v):
+            # iteration order of a set of str depends on PYTHONHASHSEED (C13 reproducibility)
+            self.hash_ordered.append(len(v))
         if isinstance(v, (list, tuple, str, range, set, frozenset, dict)):
             return list(v)
         if isinstance(v, enum.EnumType):
